@@ -33,7 +33,7 @@ R.spec(F, "IntDistribution.__init__", props=["C11", "C10"],
        ],
        modifies=["F:IntDistribution.*"])
 
-R.spec(F, "IntDistribution._contains", props=["C10", "C11", "C14"],
+R.spec(F, "IntDistribution._contains", props=["C10", "C11"],
        types={"param_value_in_internal_repr": "float"},
        requires=["self.step > 0"],
        cases=[case("normal", ensures=[])], verify=True)
